@@ -1,4 +1,5 @@
 """Per-property obligation lists. Each obligation = property function (Rust, in props/) x profiles x domain slices."""
+import os
 from engine_m.oblig import Ob
 
 Y = (-5_879_612, 5_879_612)
@@ -163,6 +164,73 @@ def c17(tier):
         obs.append(o)
     return obs
 
+def tz_contracts():
+    return [Ob('c01_days_to_date_holds', slices=[{'d': (-2**31, -1)}, {'d': (0, 2**31 - 1)}], note='contract of days_to_date used below'),
+            Ob('c01_date_to_days_holds', note='contract of date_to_days used below'),
+            Ob('c01_triple_roundtrip_holds', abstractions=['days_to_date', 'spec_rd/uf'], note='side fact of the date_to_days abstraction')]
+
+TZ_A = ['days_to_date', 'date_to_days']
+def c19(tier):
+    import tzif_shapes as S
+    seed = int(os.environ.get('VERIF_SEED', '0') or 0)
+    obs = tz_contracts()
+    obs.append(Ob('c19_bounds_lemma_holds', unwind=14, validate=False, note='the timestamp constants used in the assumptions below, against the crate'))
+    obs.append(Ob('c19_rule_day_total_holds', abstractions=TZ_A, unwind=14, slices=[{'kind': (k, k)} for k in (0, 1, 2)],
+                  note='lookup half: any rule day the reader accepts x any rule time x any timestamp of the DateTime range'))
+    pairs = [(0, 1), (1, 2), (2, 0)] if tier != 'thorough' else [(a, b) for a in range(3) for b in range(3)]
+    obs.append(Ob('c19_alt_lookup_total_holds', abstractions=TZ_A, unwind=14, slices=[{'k1': (a, a), 'k2': (b, b)} for a, b in pairs], timeout=900 if tier != 'thorough' else 1800,
+                  note='lookup half: the alternating-rule branch of to_local_time_type on any pair of accepted rule days, offsets and times'))
+    shapes = S.c19_reader_shapes(tier, seed)
+    for desc, bd, profiles in shapes:
+        L, dom = S.dom_of(bd)
+        obs.append(Ob('c19_tzif_total_holds', strlen=L, unwind=L + 4, dom={'b#bytes': dom}, profiles=profiles, validate=True, opts={'resolve_ite': True}, note='reader half: ' + desc))
+    # encoding validation (not claims): the encoding and the native build agree on the class of the reader's result on concrete files
+    for desc, bd, profiles in [x for x in shapes if ' footer ' in x[0] or 'any six counts' in x[0]][::(6 if tier != 'thorough' else 12)]:
+        L, dom = S.dom_of(bd)
+        obs.append(Ob('c19v_classify_holds', strlen=L, unwind=L + 4, dom={'b#bytes': dom, 'k': (0, 4)}, profiles=('on',), validate=True, opts={'resolve_ite': True, 'validate_only': True},
+                      note='encoding validation only: ' + desc))
+    return obs
+
+def c18(tier):
+    import tzif_shapes as S
+    thorough = tier == 'thorough'
+    obs = tz_contracts()
+    obs.append(Ob('c19_bounds_lemma_holds', unwind=14, validate=False, note='the timestamp constants used in the assumptions below, against the crate'))
+    # (1) the transition table, read from bytes: v1 and v2/v3 files, all times / type indices / offsets symbolic
+    tables = [(1, 1), (2, 2), (3, 2)] if not thorough else [(1, 1), (1, 2), (2, 2), (3, 2), (3, 3), (4, 2), (5, 3)]
+    for t, n in tables:
+        obs.append(Ob('c18_table_lookup_holds', **_shape(S.v1_file((0, 0, 0, t, n, 0))), note='table: v1, %d transitions, %d types, all content bytes free' % (t, n)))
+        if t >= 2:      # (between the first and the last transition: needs two)
+            obs.append(Ob('c18_table_lookup_holds', **_shape(S.v2_file(0x32, (0, 0, 0, 0, 0, 0), (0, 0, 0, t, n, 4), 'NaaadN')), note='table: v2 (slim v1 block), %d transitions, %d types, all content bytes free' % (t, n)))
+    obs.append(Ob('c18_table_lookup_holds', **_shape(S.v2_file(0x33, (0, 0, 0, 2, 2, 4), (1, 1, 1, 2, 2, 4), 'NEST5EDT,M3.2.0,M11.1.0N')), note='table: v3 (fat v1 block, leap/isstd/isut records), 2 transitions, 2 types'))
+    # (2) the footer: what the reader builds is what the text denotes (independent reference reader); fixed rules resolve to their offset
+    for tpl in S.FIXED + S.ALT:
+        for ver in ((0x33,) if not thorough else (0x32, 0x33)):
+            for c2 in ([(0, 0, 0, 1, 1, 0)] if not thorough else [(0, 0, 0, 0, 1, 0), (0, 0, 0, 2, 2, 0)]):
+                obs.append(Ob('c18_footer_holds', **_shape(S.v2_file(ver, (0, 0, 0, 0, 0, 0), c2, tpl)), note='footer: v%s table %s footer %s' % (chr(ver), c2, S.tpl_str(tpl))))
+    # (3) the rule semantics, in two steps: the value of each rule instant, and the branch logic of the lookup for any instants.
+    # The calendar closed forms (spec_rd, spec_is_leap) and the timestamp -> year step are taken as uninterpreted there; what is
+    # needed of them comes in as contracts and lemmas, each an obligation of this run with the closed forms expanded
+    obs += [Ob('oracle_rd_bound_holds', profiles=('on',), note='bound lemma attached to the uninterpreted view of spec_rd'),
+            Ob('oracle_rd_month_lemma_holds', profiles=('on',), note='lemma instantiated in the rule obligations: first of a month relative to January 1'),
+            Ob('oracle_rd_inner_lemma_holds', profiles=('on',), note='lemma instantiated in the rule obligations: January 1 of an inner year is well inside the day range'),
+            Ob('c18_inner_year_holds', abstractions=['days_to_date'], unwind=14, note='assumed after the year is read in the rule obligations: an inner timestamp has an inner year'),
+            Ob('c18_is_leap_contract_holds', note='contract of is_leap_year used below'),
+            Ob('c18_year_doy_contract_holds', unwind=14, slices=[{'y': (-5_879_611, -1)}, {'y': (1, 5_879_611)}], timeout=900, note='contract of year_doy_to_days used below (Julian rule days skip 29 February)')]
+    R = ['days_to_date/uf', 'date_to_days', 'year_doy_to_days', 'is_leap_year', 'spec_rd/uf', 'spec_is_leap/uf']
+    obs.append(Ob('c18_rule_day_holds', abstractions=R, unwind=14, slices=[{'kind': (k, k)} for k in (0, 1, 2)], validate=False, note='rule day -> local instant vs the closed-form calendar reference'))
+    obs.append(Ob('c18_alt_branch_holds', abstractions=['rule_to_local_timestamp/uf'], unwind=14, validate=False,
+                  note='daylight time exactly between the two rule instants, either order (hemisphere), for any values of the instants'))
+    pairs = [(0, 1)] if not thorough else [(0, 1), (1, 0), (0, 0), (1, 1), (1, 2)]
+    obs.append(Ob('c18_alt_offset_holds', abstractions=R, unwind=14, slices=[{'k1': (a, a), 'k2': (b, b)} for a, b in pairs], timeout=900 if not thorough else 2400, validate=False,
+                  note='end to end on some rule-kind pairs: standard/daylight switching at the reference instants, IANA-shaped rules'))
+    return obs
+
+def _shape(bd):
+    import tzif_shapes as S
+    L, dom = S.dom_of(bd)
+    return dict(strlen=L, unwind=L + 4, dom={'b#bytes': dom}, validate=True, opts={'resolve_ite': True})
+
 def c11(tier):
     A = ['days_to_date']
     obs = [Ob('c01_days_to_date_holds', slices=[{'d': (-2**31, -1)}, {'d': (0, 2**31 - 1)}], note='contract of days_to_date used below')]
@@ -186,12 +254,12 @@ PROPS = {
     'C13': {'obligations': c13, 'bounds': 'read side only: all strings of each listed byte length (<= 45) over ASCII and two-byte UTF-8 sequences; reference reader loop unwound 30', 'outside': 'format_rfc3339 (String building); strings with 3/4-byte characters; lengths above 45'},
     'C14': {'obligations': c14, 'bounds': 'DateTime::parse_rfc3339 and DateTime::from_str only: all strings of each listed byte length (<= 45) over ASCII and two-byte UTF-8', 'outside': 'parse()/format() with pattern strings, Date/Time::from_str, CronSchedule::parse (String/Vec<String> code out of reach)'},
     'C17': {'obligations': c17, 'cfg_test': True, 'bounds': 'all schedules (any non-empty subsets of the five field ranges), clock and loop state in the stated day window (quick: 2022-2025, thorough: 1970-9999), offset 0; any number of carry steps by induction over loop iterations (meta-step)', 'outside': 'termination for unsatisfiable schedules; schedules whose pinned clock carries a non-zero offset; expression parsing (C16)'},
-    'C18': {'engine': 'kani', 'kani_prefixes': ['c18_'], 'scratch_props': ['append_local-timezone__verif_tz.rs', 'append_local-timezone__verif_tz_replay.rs'],
-            'bounds': 'version-1 files with (transitions, types) in {(0,1),(1,2),(2,2),(3,2)}: all transition times, type indices (valid) and offsets symbolic, all i64 timestamps; plus a directly built state with two transitions and a fixed-offset footer rule',
-            'outside': 'the footer text (POSIX TZ string) and rule-based lookups (Jn / n / Mm.w.d): std string code out of reach of CBMC here, and not ported to the MIR engine in this revision; version 2/3 framing; more than 3 transitions'},
-    'C19': {'engine': 'kani', 'kani_prefixes': ['c19_'], 'scratch_props': ['append_local-timezone__verif_tz.rs', 'append_local-timezone__verif_tz_replay.rs'],
-            'bounds': 'version-1 files with (transitions, types) in {(0,0),(0,1),(1,1),(2,1),(2,2)} and selected truncations: every content byte (incl. type indices) and the timestamp symbolic; any 44-byte header with a non-zero count',
-            'outside': 'footer text and rule fields (M13.1.0, J0, ...): not decided; version 2/3 framing; other shapes and truncation points'},
+    'C18': {'obligations': c18,
+            'bounds': 'table: files with the listed numbers of transitions and types (<= 5 / 3), every content byte (times, type indices, offsets) symbolic, every timestamp from the first transition on; footer: every file whose footer follows one of the listed class templates (digits free), compared with an independent reference reader of the POSIX TZ string; rule semantics: every rule day / time / pair of offsets the reader can accept x every timestamp in years -5879610..=5879610, against a closed-form calendar reference, under the IANA-shape assumptions of the property',
+            'outside': 'longer tables; footers outside the templates; the first and last representable year (known finding of C19); Offset::Local reading /etc/localtime and the wall clock (I/O); agreement of the reference evaluator with CPython zoneinfo (not available to a solver)'},
+    'C19': {'obligations': c19,
+            'bounds': 'reader half: the stated families of byte strings (version 1 with any counts < 256 and all content free at lengths 44..58, truncated headers, fixed larger tables, version 2/3 files whose footer follows one of the listed class templates or a single-edit mutation of one) x every i64 timestamp for table / fixed-rule lookups; lookup half: every rule day the reader can accept (proved as a post-condition of the reader on each family) x every rule time x every timestamp of the DateTime range',
+            'outside': 'byte strings outside the listed families (longer tables, footers that are more than one edit away from a template, 3/4-byte UTF-8 sequences in the footer); Offset::Local reading /etc/localtime (I/O)'},
     'C15': {'obligations': c15, 'bounds': 'full i32/u32/u64 domain of every parameter', 'outside': 'the rendered message text (std formatting of the tracked min/max/value fields)'},
     'C04': {'obligations': c04, 'bounds': 'all instants x all u32 counts; all Durations (u64 secs, u32 nanos < 10^9)', 'outside': ''},
 }
